@@ -42,6 +42,21 @@ def run (t : Tier) : Emit Unit := do
           let s' := { s with header := s.header.map fun h => { h with sectionSyntaxIndicator := !h.sectionSyntaxIndicator, privateBit := !h.privateBit, sectionLength := (h.sectionLength + 7) % 4096 } }
           let d' : PSIData := { pointerField := 0, sections := [s'] }
           emit "C13" { op := "writePSI", args := [("psi", d'.toJson)], model := showWrite (writePSIData d'), spec := none, tag := "write-header-flags-contradict-table-id" }
+  -- (1a) a section whose struct says SectionLength 0 (the writer then emits nothing but the three header bytes) in front
+  --      of, between and behind ordinary sections of one unit, and in a call of its own between ordinary calls: whatever
+  --      the writer keeps between sections and calls must not leak into the next section
+  for rep in [0:4] do
+    let (s0, _) ← liftGen (genSectionOfKind (rep % 2) false)
+    let bare : PSISection := { s0 with header := s0.header.map fun h => { h with sectionLength := 0 } }
+    let dBare : PSIData := { pointerField := 0, sections := [bare] }
+    emit "C13" { op := "writePSI", args := [("psi", dBare.toJson)], model := showWrite (writePSIData dBare), spec := none, tag := "write-header-only-section" }
+    let (s, bs) ← liftGen (genSectionOfKind (rep % 2) false)
+    let d : PSIData := { pointerField := 0, sections := [s] }
+    emit "C13" { op := "writePSI", args := [("psi", d.toJson)], model := showWrite (writePSIData d),
+                 spec := some (showWrite (.ok (Spec.unitEncode 0 [bs] 0))), tag := "write-after-a-header-only-section" }
+    let (s2, _) ← liftGen (genSectionOfKind ((rep + 1) % 2) false)
+    let dMix : PSIData := { pointerField := 0, sections := [bare, s, bare, s2, bare] }
+    emit "C13" { op := "writePSI", args := [("psi", dMix.toJson)], model := showWrite (writePSIData dMix), spec := none, tag := "write-header-only-sections-in-a-unit" }
   -- (1b) PMT with descriptors at the top of the 8-bit length range, in the programme loop and in an ES loop
   for n in [250, 251, 252, 253, 254, 255] do
     for where_ in [0, 1] do
